@@ -67,7 +67,7 @@ def execute(behaviours, d, timeout=900):
     if os.environ.get('VERIF_KEEP'):
         core.log('stimuli at', stim)
     rc, out, wall = core.go_test('server/commitlog', '^TestVerifCommitLog$',
-                                 {'VERIF_STIMULI': stim, 'VERIF_TRACE_OUT': trace}, timeout=timeout)
+                                 {'VERIF_STIMULI': stim, 'VERIF_TRACE_OUT': trace}, timeout=timeout, subs=['c01'])
     if rc != 0 or not os.path.exists(trace):
         raise core.Inconclusive('harness failed rc=%s: %s' % (rc, out[-3000:]))
     return trace
